@@ -646,6 +646,16 @@ class Interp:
         for f in st.facts:
             if f[0] == "cond" and f[1] == c:
                 known = f[2]
+        if known is None and isinstance(c, tuple) and c[0] == "bin" and c[1] in CMP_FLIP and len(vals) == 1 and str(vals[0]) == "0":
+            # the same comparison written with its operands swapped (a < b  <=>  b > a; exact for floats too, unlike negation)
+            cf = ("bin", CMP_FLIP[c[1]], c[3], c[2])
+            for f in st.facts:
+                if f[0] == "cond" and f[1] == cf:
+                    tr = self.models._truth(f[2])
+                    if tr is not None:
+                        known = ("not", ("0",)) if tr else "0"
+            if known is not None:
+                known = 1 if known != "0" else 0
         if known is None:
             known = self.models.decide_cond(self, st, c)
         targets = list(zip(vals, ts)) + [(None, t["otherwise"])]
@@ -801,6 +811,10 @@ def payload(interp, st, v, variant, idx="0"):
     return ("proj", v, (("dc", variant), idx))
 
 
+CMP_FLIP = {"Lt": "Gt", "Gt": "Lt", "Le": "Ge", "Ge": "Le", "Eq": "Eq", "Ne": "Ne"}
+INT_TYS = ("usize", "u8", "u16", "u32", "u64", "u128", "isize", "i8", "i16", "i32", "i64", "i128")
+
+
 class Models:
     """std/core models.  Each model: f(interp, st, fr, info) -> iterable of (state, retval) or None."""
 
@@ -810,9 +824,10 @@ class Models:
         self.table = {}
         t = self.table
         for name in ("map", "and_then", "or_else", "unwrap_or", "unwrap_or_else", "is_some", "is_none", "unwrap", "expect", "inspect",
-                     "ok_or", "ok_or_else", "map_or", "copied", "cloned", "as_ref", "as_mut", "take", "unwrap_or_default", "filter"):
+                     "ok_or", "ok_or_else", "map_or", "map_or_else", "copied", "cloned", "as_ref", "as_mut", "take", "unwrap_or_default", "filter",
+                     "is_some_and", "is_none_or"):
             t["core::option::Option::" + name] = getattr(self, "opt_" + name, None)
-        for name in ("map", "map_err", "unwrap", "expect", "is_ok", "is_err", "ok", "and_then", "unwrap_or"):
+        for name in ("map", "map_err", "unwrap", "expect", "is_ok", "is_err", "ok", "and_then", "unwrap_or", "or_else", "unwrap_or_else", "map_or", "map_or_else"):
             t["core::result::Result::" + name] = getattr(self, "res_" + name, None)
         t["<core::option::Option as core::ops::Try>::branch"] = self.try_branch_opt
         t["<core::result::Result as core::ops::Try>::branch"] = self.try_branch_res
@@ -854,6 +869,8 @@ class Models:
         t["core::ptr::null_mut"] = self.null
         t["core::ptr::null"] = self.null
         t["core::cmp::Ord::max"] = None
+        t["core::bool::<impl bool>::then"] = self.bool_then
+        t["bool::then"] = self.bool_then
         for q in ("<I as core::iter::Iterator>::for_each", "core::iter::Iterator::for_each"):
             t[q] = self.iter_for_each
         t["core::iter::Iterator::map"] = None
@@ -873,6 +890,10 @@ class Models:
         name = q.split("::")[-1]
         if q.endswith("Iterator>::for_each") or q.endswith("Iterator::for_each"):
             return self.iter_for_each
+        if q.endswith(("Iterator>::all", "Iterator::all", "Iterator>::any", "Iterator::any")) and len(info["args"]) == 2:
+            return self.iter_all_any
+        if q.endswith(("Iterator>::fold", "Iterator::fold")) and len(info["args"]) == 3:
+            return self.iter_fold
         if q.startswith("core::ptr::mut_ptr::<impl *mut T>::") or q.startswith("core::ptr::const_ptr::<impl *const T>::"):
             if name in ("cast", "cast_const", "cast_mut", "as_ptr"):
                 return self.identity
@@ -886,7 +907,56 @@ class Models:
                 return None
         if q == "core::cmp::Ord::max" or q.endswith("as core::cmp::Ord>::max"):
             return None
+        # integer min / saturating_sub are case splits (the same two paths as the if-form they abbreviate)
+        if info["dty"] in INT_TYS and len(info["args"]) == 2:
+            if q in ("core::cmp::min", "core::cmp::Ord::min") or q.endswith("as core::cmp::Ord>::min"):
+                return self.num_min
+            if (q.startswith("core::num::<impl ") or q.split("::")[0] in INT_TYS) and name == "saturating_sub":
+                return self.num_saturating_sub
         return None
+
+    def assume(self, interp, st, fr, c, truth, info):
+        """a fork of st on which the comparison c has the given truth value (facts and branch event as for a switch), or None if
+        the facts already on the path decide it the other way"""
+        known = None
+        for f in st.facts:
+            if f[0] == "cond" and f[1] == c:
+                known = self._truth(f[2])
+        if known is None:
+            d = self.decide_cond(interp, st, c)
+            if d is not None:
+                known = str(d) not in ("0", "false")
+        if known is not None:
+            return st.fork() if known == truth else None
+        s2 = st.fork()
+        outcome = "1" if truth else "0"
+        s2.facts.append(("cond", c, outcome))
+        interp.event(s2, fr, {"ev": "branch", "cond": c, "outcome": outcome, "ty": "bool", "ln": info["ln"], "bb": info["bb"], "via": info["q"]})
+        self.note_sum_fact(interp, s2, c, truth)
+        self.note_room_fact(interp, s2, c, truth)
+        if self.note_empty_fact(interp, s2, c, truth):
+            return None
+        return s2
+
+    def num_min(self, interp, st, fr, info):
+        a, b = info["args"]
+        c = ("bin", "Le", a, b)
+        outs = []
+        for truth, val in ((True, a), (False, b)):
+            s2 = self.assume(interp, st, fr, c, truth, info)
+            if s2 is not None:
+                outs.append((s2, val))
+        return outs
+
+    def num_saturating_sub(self, interp, st, fr, info):
+        a, b = info["args"]
+        c = ("bin", "Lt", a, b)
+        outs = []
+        for truth, val in ((True, ("const", info["dty"], "0")), (False, ("bin", "Sub", a, b))):
+            s2 = self.assume(interp, st, fr, c, truth, info)
+            if s2 is not None:
+                outs.append((s2, val))
+        return outs
 
     # names of the RawLRU fields of composite caches whose capacity equals the cache's resident bound `size`
     # (filled in by rules/lib/composite.py from the constructors; empty = no room reasoning)
@@ -998,8 +1068,11 @@ class Models:
 
     def note_sum_fact(self, interp, st, c, truth):
         """`len(A)+len(B) < size` (all resident lists, current versions) gives slack 1"""
-        if not (isinstance(c, tuple) and c[0] == "bin" and c[1] in ("Lt", "Ge")):
+        if not (isinstance(c, tuple) and c[0] == "bin" and c[1] in ("Lt", "Ge", "Gt", "Le")):
             return
+        if c[1] in ("Gt", "Le"):
+            # `size > sum` / `size <= sum`: the same test written with the operands swapped
+            c = ("bin", {"Gt": "Lt", "Le": "Ge"}[c[1]], c[3], c[2]) + tuple(c[4:])
         is_lt = (c[1] == "Lt") == truth
         s, bound = c[2], c[3]
         if not (isinstance(s, tuple) and s[0] == "bin" and s[1] == "Add"):
@@ -1379,14 +1452,164 @@ class Models:
         yield (st, payload(interp, st, o, "Ok"))
 
     res_expect = res_unwrap
-    res_is_ok = None
-    res_is_err = None
+
+    @staticmethod
+    def _ok(v):
+        return ("agg", "adt", ("core::result::Result", "Ok"), (v,), ("0",))
+
+    @staticmethod
+    def _err(v):
+        return ("agg", "adt", ("core::result::Result", "Err"), (v,), ("0",))
+
+    def _drop_unused(self, interp, st, fr, info, idx, why):
+        interp.event(st, fr, {"ev": "drop", "loc": None, "val": info["args"][idx], "ty": info["arg_tys"][idx], "head": info["arg_tys"][idx], "ln": info["ln"],
+                              "bb": info["bb"], "unwind": info["unwind"], "moved": False, "implicit": why})
+
+    def _fork_bool(self, interp, st, fr, b, info):
+        """yield (state, truth) for a boolean term (a closure's verdict): constants decide, anything else forks like a switch"""
+        ci = const_int(b)
+        if ci is not None:
+            yield (st, bool(ci))
+            return
+        for truth in (True, False):
+            s2 = self.assume(interp, st, fr, b, truth, info)
+            if s2 is not None:
+                yield (s2, truth)
+
+    def res_is_ok(self, interp, st, fr, info):
+        o = interp.read(st, deref_loc(info["args"][0]))
+        for s2, k in self._fork_variant(interp, st, fr, o, ("Ok", "Err"), info):
+            yield (s2, ("const", "bool", "1" if k == "Ok" else "0"))
+
+    def res_is_err(self, interp, st, fr, info):
+        o = interp.read(st, deref_loc(info["args"][0]))
+        for s2, k in self._fork_variant(interp, st, fr, o, ("Ok", "Err"), info):
+            yield (s2, ("const", "bool", "0" if k == "Ok" else "1"))
+
+    def res_and_then(self, interp, st, fr, info):
+        o, f = info["args"]
+        for s2, k in self._fork_variant(interp, st, fr, o, ("Ok", "Err"), info):
+            if k == "Err":
+                yield (s2, self._err(payload(interp, s2, o, "Err")))
+            else:
+                for s3, rv in interp.call_closure(s2, fr, f, [payload(interp, s2, o, "Ok")], info):
+                    yield (s3, rv)
+
+    def res_or_else(self, interp, st, fr, info):
+        o, f = info["args"]
+        for s2, k in self._fork_variant(interp, st, fr, o, ("Ok", "Err"), info):
+            if k == "Ok":
+                yield (s2, self._ok(payload(interp, s2, o, "Ok")))
+            else:
+                for s3, rv in interp.call_closure(s2, fr, f, [payload(interp, s2, o, "Err")], info):
+                    yield (s3, rv)
+
+    def res_unwrap_or_else(self, interp, st, fr, info):
+        o, f = info["args"]
+        for s2, k in self._fork_variant(interp, st, fr, o, ("Ok", "Err"), info):
+            if k == "Ok":
+                yield (s2, payload(interp, s2, o, "Ok"))
+            else:
+                for s3, rv in interp.call_closure(s2, fr, f, [payload(interp, s2, o, "Err")], info):
+                    yield (s3, rv)
+
+    def res_map_or(self, interp, st, fr, info):
+        o, d, f = info["args"]
+        for s2, k in self._fork_variant(interp, st, fr, o, ("Ok", "Err"), info):
+            if k == "Err":
+                yield (s2, d)
+            else:
+                self._drop_unused(interp, s2, fr, info, 1, "map_or default")
+                for s3, rv in interp.call_closure(s2, fr, f, [payload(interp, s2, o, "Ok")], info):
+                    yield (s3, rv)
+
+    def res_map_or_else(self, interp, st, fr, info):
+        o, d, f = info["args"]
+        for s2, k in self._fork_variant(interp, st, fr, o, ("Ok", "Err"), info):
+            if k == "Err":
+                for s3, rv in interp.call_closure(s2, fr, d, [payload(interp, s2, o, "Err")], info):
+                    yield (s3, rv)
+            else:
+                for s3, rv in interp.call_closure(s2, fr, f, [payload(interp, s2, o, "Ok")], info):
+                    yield (s3, rv)
+
+    # Result::ok / err / unwrap_or drop the unused payload (user Drop code): left opaque on purpose
     res_ok = None
-    res_and_then = None
     res_unwrap_or = None
-    opt_map_or = None
-    opt_ok_or_else = None
-    opt_filter = None
+
+    def opt_map_or(self, interp, st, fr, info):
+        o, d, f = info["args"]
+        for s2, k in self._fork_variant(interp, st, fr, o, ("Some", "None"), info):
+            if k == "None":
+                yield (s2, d)
+            else:
+                self._drop_unused(interp, s2, fr, info, 1, "map_or default")
+                for s3, rv in interp.call_closure(s2, fr, f, [payload(interp, s2, o, "Some")], info):
+                    yield (s3, rv)
+
+    def opt_map_or_else(self, interp, st, fr, info):
+        o, d, f = info["args"]
+        for s2, k in self._fork_variant(interp, st, fr, o, ("Some", "None"), info):
+            if k == "None":
+                for s3, rv in interp.call_closure(s2, fr, d, [], info):
+                    yield (s3, rv)
+            else:
+                for s3, rv in interp.call_closure(s2, fr, f, [payload(interp, s2, o, "Some")], info):
+                    yield (s3, rv)
+
+    def opt_ok_or_else(self, interp, st, fr, info):
+        o, f = info["args"]
+        for s2, k in self._fork_variant(interp, st, fr, o, ("Some", "None"), info):
+            if k == "Some":
+                yield (s2, self._ok(payload(interp, s2, o, "Some")))
+            else:
+                for s3, rv in interp.call_closure(s2, fr, f, [], info):
+                    yield (s3, self._err(rv))
+
+    def opt_is_some_and(self, interp, st, fr, info):
+        o, f = info["args"]
+        for s2, k in self._fork_variant(interp, st, fr, o, ("Some", "None"), info):
+            if k == "None":
+                yield (s2, ("const", "bool", "0"))
+            else:
+                for s3, rv in interp.call_closure(s2, fr, f, [payload(interp, s2, o, "Some")], info):
+                    yield (s3, rv)
+
+    def opt_is_none_or(self, interp, st, fr, info):
+        o, f = info["args"]
+        for s2, k in self._fork_variant(interp, st, fr, o, ("Some", "None"), info):
+            if k == "None":
+                yield (s2, ("const", "bool", "1"))
+            else:
+                for s3, rv in interp.call_closure(s2, fr, f, [payload(interp, s2, o, "Some")], info):
+                    yield (s3, rv)
+
+    def opt_filter(self, interp, st, fr, info):
+        o, f = info["args"]
+        for s2, k in self._fork_variant(interp, st, fr, o, ("Some", "None"), info):
+            if k == "None":
+                yield (s2, NONE)
+                continue
+            x = payload(interp, s2, o, "Some")
+            tl = ("T", s2.fresh(), ())
+            s2.store[tl] = x
+            for s3, rv in interp.call_closure(s2, fr, f, [("ref", tl)], info):
+                for s4, truth in self._fork_bool(interp, s3, fr, rv, info):
+                    if truth:
+                        yield (s4, some(x))
+                    else:
+                        interp.event(s4, fr, {"ev": "drop", "loc": None, "val": x, "ty": info["arg_tys"][0], "head": info["arg_tys"][0], "ln": info["ln"],
+                                              "bb": info["bb"], "unwind": info["unwind"], "moved": False, "implicit": "filter rejected"})
+                        yield (s4, NONE)
+
+    def bool_then(self, interp, st, fr, info):
+        b, f = info["args"]
+        for s2, truth in self._fork_bool(interp, st, fr, b, info):
+            if truth:
+                for s3, rv in interp.call_closure(s2, fr, f, [], info):
+                    yield (s3, some(rv))
+            else:
+                yield (s2, NONE)
 
     def try_branch_opt(self, interp, st, fr, info):
         o = info["args"][0]
@@ -1436,6 +1659,48 @@ class Models:
         for s2, rv in interp.call_closure(st, fr, f, cargs, info):
             interp.event(s2, fr, {"ev": "loop_end", "id": cid, "iters": 1})
             yield (s2, ("unit",))
+
+    def _closure_args(self, interp, f, item, extra_first=()):
+        body = interp.facts.body(f[2]) if isinstance(f, tuple) and f[0] == "agg" and f[1] == "closure" else None
+        nargs = (body["arg_count"] - 1 - len(extra_first)) if body else 1
+        if nargs == 1:
+            return list(extra_first) + [item]
+        return list(extra_first) + [("proj", item, (str(i),)) for i in range(nargs)]
+
+    def iter_all_any(self, interp, st, fr, info):
+        """Iterator::all / any: the verdict is the closure's verdict on the last item visited (true/false resp. when nothing is visited)"""
+        it, f = info["args"]
+        is_all = info["q"].split("::")[-1] == "all"
+        cid = st.fresh()
+        item = ("iter_item", cid, interp.read(st, deref_loc(it)) if isinstance(it, tuple) and it[0] == "ref" else it)
+        interp.event(st, fr, {"ev": "loop", "kind": "all" if is_all else "any", "iter": it, "id": cid, "ln": info["ln"], "bb": info["bb"], "unwind": info["unwind"],
+                              "iter_ty": info["arg_tys"][0]})
+        s0 = st.fork()
+        interp.event(s0, fr, {"ev": "loop_end", "id": cid, "iters": 0})
+        yield (s0, ("const", "bool", "1" if is_all else "0"))
+        for s2, rv in interp.call_closure(st, fr, f, self._closure_args(interp, f, item), info):
+            for s3, truth in self._fork_bool(interp, s2, fr, rv, info):
+                interp.event(s3, fr, {"ev": "loop_end", "id": cid, "iters": 1})
+                yield (s3, ("const", "bool", "1" if truth else "0"))
+
+    def iter_fold(self, interp, st, fr, info):
+        """Iterator::fold: no item -> the initial value; otherwise the closure's result on the last item, entered with an arbitrary
+        accumulator of the result type (sound for any number of earlier iterations)"""
+        it, init, f = info["args"]
+        cid = st.fresh()
+        item = ("iter_item", cid, it)
+        interp.event(st, fr, {"ev": "loop", "kind": "fold", "iter": it, "id": cid, "ln": info["ln"], "bb": info["bb"], "unwind": info["unwind"],
+                              "iter_ty": info["arg_tys"][0]})
+        s0 = st.fork()
+        interp.event(s0, fr, {"ev": "loop_end", "id": cid, "iters": 0})
+        yield (s0, init)
+        aid = st.fresh()
+        interp.event(st, fr, {"ev": "call", "q": "<fold accumulator>", "args": [init], "id": aid, "ln": info["ln"], "bb": info["bb"], "dty": info["dty"],
+                              "unwind": None, "synthetic": True})
+        acc = ("call", aid, "<fold accumulator>")
+        for s2, rv in interp.call_closure(st, fr, f, self._closure_args(interp, f, item, (acc,)), info):
+            interp.event(s2, fr, {"ev": "loop_end", "id": cid, "iters": 1})
+            yield (s2, rv)
 
     # ---- HashMap<KeyRef<K>, NonNull<EntryNode>> and friends
     def _hm_recv(self, interp, st, info):
